@@ -75,6 +75,8 @@ var mWords = []string{"save", "load", "find", "run", "apply", "check", "send", "
 type Opts struct {
 	MaxClasses, MaxMethods, MaxOut int
 	Quotes                         bool // allow names containing a double quote
+	Overloads                      bool // a class may declare the same method name twice (the reverse relation is name based)
+	DefaultPkg                     bool // some classes live in the default package (empty package name)
 }
 
 // Generate builds a model and returns it with a list of interesting roots/targets (present names first).
@@ -90,6 +92,9 @@ func Generate(r *run.Rand, o Opts) *Model {
 		var pk, cn string
 		for {
 			pk = r.Pick(pkgs)
+			if o.DefaultPkg && r.Chance(1, 6) {
+				pk = ""
+			}
 			cn = r.Pick(clsWords) + r.Pick([]string{"", "Impl", "s", "2", "Base"})
 			if !used[pk+"."+cn] {
 				break
@@ -119,8 +124,12 @@ func Generate(r *run.Rand, o Opts) *Model {
 		if o.Quotes && r.Chance(1, 12) {
 			name = name + "\"q"
 		}
-		for usedM[c.Pkg+"."+c.Name+"."+name] {
-			name += fmt.Sprint(i)
+		if o.Overloads && len(c.Methods) > 0 && r.Chance(1, 6) {
+			name = c.Methods[r.Intn(len(c.Methods))].Name // an overload: same full name, its own call list
+		} else {
+			for usedM[c.Pkg+"."+c.Name+"."+name] {
+				name += fmt.Sprint(i)
+			}
 		}
 		usedM[c.Pkg+"."+c.Name+"."+name] = true
 		me := &Method{Pkg: c.Pkg, Class: c.Name, Name: name}
